@@ -2,7 +2,10 @@ package mgmt
 
 import (
 	"bytes"
+	"encoding/json"
 	"fmt"
+	"os"
+	"path/filepath"
 	"sort"
 	"strings"
 	"testing"
@@ -94,6 +97,8 @@ func (x *executor) build(op Op, idx int) (wire []byte, match enc.Name, comp []by
 		}
 	case "noparam":
 		it, err = spec.Spec{}.MakeInterest(name, icfg, nil, nil)
+	case "announce":
+		it, err = spec.Spec{}.MakeInterest(name, icfg, enc.Wire{op.Raw}, x.signer)
 	default:
 		var val []byte
 		pc := mgmt.ControlParameters{Val: x.args(op)}
@@ -868,7 +873,36 @@ func TestC17Mgmt(t *testing.T) {
 }
 
 func TestC17MgmtReplay(t *testing.T) {
+	replayShim(t, "TestC17Mgmt")
 	evid.Replay(t, "TestC17Mgmt", execC17(t))
+}
+
+// replayShim: a process death inside Test...Regress (or the known-finding unit) leaves an
+// in-flight file that names that unit; the case is one of unit's, so re-address the file.
+func replayShim(t *testing.T, unit string) {
+	p := os.Getenv("VERIF_REPLAY")
+	if p == "" {
+		return
+	}
+	b, err := os.ReadFile(p)
+	if err != nil {
+		return
+	}
+	var rf map[string]json.RawMessage
+	if json.Unmarshal(b, &rf) != nil {
+		return
+	}
+	var u string
+	_ = json.Unmarshal(rf["unit"], &u)
+	if u != unit+"Regress" && !(unit == "TestC17Mgmt" && u == "TestC17KnownOverrun") {
+		return
+	}
+	rf["unit"], _ = json.Marshal(unit)
+	nb, _ := json.Marshal(rf)
+	np := filepath.Join(t.TempDir(), "replay.json")
+	if os.WriteFile(np, nb, 0o644) == nil {
+		t.Setenv("VERIF_REPLAY", np)
+	}
 }
 
 func TestC17MgmtRegress(t *testing.T) {
